@@ -152,7 +152,17 @@ def run_contract_case(I, contract, case, timeout_ms=None, registry=None):
                     s.add(h)
                 for h in smt.theory_facts(ctx.hyps()):
                     s.add(h)
-                res["cover"] = str(s.check())
+                r0 = s.check()
+                if r0 == z3.unknown:
+                    # quantified axioms (injectivity, well-formedness) make sat answers unknown: check the quantifier-free part
+                    s = z3.Solver()
+                    s.set("timeout", 5000)
+                    qf = [h for h in ctx.hyps() if not _has_quantifier(h)]
+                    for h in qf + smt.theory_facts(qf):
+                        s.add(h)
+                    r0 = s.check()
+                    res["cover_note"] = "sat checked on the quantifier-free part of the precondition"
+                res["cover"] = str(r0)
             old = contract.snapshot(I, ctx, a)
             params = contract.params(f)
             kwargs = {p: a[p] for p in params if p in a}
@@ -222,6 +232,20 @@ def run_contract_case(I, contract, case, timeout_ms=None, registry=None):
         res["error"] = "CRASH " + "".join(traceback.format_exception(type(e), e, e.__traceback__))[-3000:]
     res["wall"] = round(time.time() - t0, 3)
     return res
+
+
+def _has_quantifier(e):
+    seen = set()
+    work = [e]
+    while work:
+        x = work.pop()
+        if x.get_id() in seen:
+            continue
+        seen.add(x.get_id())
+        if z3.is_quantifier(x):
+            return True
+        work.extend(x.children())
+    return False
 
 
 def model_eval(model, t):
